@@ -30,7 +30,7 @@ type Case struct {
 
 func genIdle(t *rapid.T) Case {
 	c := Case{Kind: "tumbling", SizeMs: 1000, OOOMs: 200, Groups: rapid.IntRange(0, 2).Draw(t, "igroups"), Idle: true}
-	n := rapid.IntRange(40, 70).Draw(t, "in")
+	n := rapid.IntRange(65, 80).Draw(t, "in")
 	base := et.Base
 	c.Events = append(c.Events, et.Event{ID: 0, TS: base + 900, V: 1, G: "g1"})
 	for i := 1; i < n; i++ {
@@ -45,7 +45,7 @@ func genIdle(t *rapid.T) Case {
 }
 
 func genCase(t *rapid.T) Case {
-	if rapid.IntRange(0, 199).Draw(t, "idlemode") == 0 {
+	if rapid.IntRange(0, 99).Draw(t, "idlemode") == 57 { // an inner value: rapid favours the ends of a range
 		return genIdle(t)
 	}
 	c := Case{Kind: rapid.SampledFrom([]string{"tumbling", "tumbling", "sliding", "session"}).Draw(t, "kind")}
